@@ -26,15 +26,36 @@ pub fn corpus() -> Vec<String> {
     }
     let mut out = Vec::new();
     walk(Path::new(TESTDATA), &mut out);
-    out.into_iter()
+    let mut all: Vec<String> = out
+        .into_iter()
         .filter_map(|p| p.strip_prefix(TESTDATA).ok().map(|r| r.to_string_lossy().to_string()))
-        .collect()
+        .collect();
+    // hand-written sources kept with the checks (absolute paths): shapes the shipped corpus lacks
+    if let Some(extra) = extra_sources_dir() {
+        let mut more = Vec::new();
+        walk(&extra, &mut more);
+        all.extend(more.into_iter().map(|p| p.to_string_lossy().to_string()));
+    }
+    all
+}
+
+/// `<verif>/sources`, found relative to this executable (`<verif>/sim/target/release/fontc-sim`)
+pub fn extra_sources_dir() -> Option<PathBuf> {
+    if let Ok(home) = std::env::var("VERIF_HOME") {
+        let p = PathBuf::from(home).join("sources");
+        return p.is_dir().then_some(p);
+    }
+    let exe = std::env::current_exe().ok()?;
+    let p = exe.ancestors().nth(4)?.join("sources");
+    p.is_dir().then_some(p)
 }
 
 #[derive(Clone, Debug)]
 pub struct Group {
     pub property: String,
     pub index: usize,
+    /// place in the (shuffled) processing order
+    pub position: usize,
     pub seed: u64,
     pub reference: Plan,
     /// how many variations / which recipe
@@ -156,6 +177,7 @@ pub fn groups(property: &str, tier: &str, seed: u64) -> Vec<Group> {
                     out.push(Group {
                         property: "C01".into(),
                         index: out.len(),
+                    position: 0,
                         seed: gseed,
                         reference,
                         recipe: Recipe::C01 { n: if quick { 8 } else { 64 } },
@@ -165,7 +187,7 @@ pub fn groups(property: &str, tier: &str, seed: u64) -> Vec<Group> {
         }
         "C02" => {
             for src in &corpus {
-                let sets: Vec<usize> = if quick { vec![0, 1 + rng.below(5)] } else { vec![0, 1, 2, 5] };
+                let sets: Vec<usize> = if quick { vec![0, 1 + rng.below(5)] } else { vec![0, 1 + rng.below(6)] };
                 for k in sets {
                     let mut reference = Plan::reference("C02", src, opts[k].clone());
                     reference.hash_seed = rng.next();
@@ -173,12 +195,13 @@ pub fn groups(property: &str, tier: &str, seed: u64) -> Vec<Group> {
                     out.push(Group {
                         property: "C02".into(),
                         index: out.len(),
+                    position: 0,
                         seed: gseed,
                         reference,
                         recipe: if quick {
                             Recipe::C02 { n_rand: 4, n_victims: 9 }
                         } else {
-                            Recipe::C02 { n_rand: 60, n_victims: usize::MAX }
+                            Recipe::C02 { n_rand: 40, n_victims: usize::MAX }
                         },
                     });
                 }
@@ -198,6 +221,7 @@ pub fn groups(property: &str, tier: &str, seed: u64) -> Vec<Group> {
                 out.push(Group {
                     property: "C14".into(),
                     index: out.len(),
+                    position: 0,
                     seed: gseed,
                     reference,
                     recipe: Recipe::C14 { n: if quick { 9 } else { 60 } },
@@ -212,6 +236,7 @@ pub fn groups(property: &str, tier: &str, seed: u64) -> Vec<Group> {
                 out.push(Group {
                     property: "C15".into(),
                     index: out.len(),
+                    position: 0,
                     seed: gseed,
                     reference,
                     recipe: if quick { Recipe::C15 { n_job: 5, n_bytes: 9 } } else { Recipe::C15 { n_job: 40, n_bytes: 120 } },
@@ -265,7 +290,8 @@ pub fn groups(property: &str, tier: &str, seed: u64) -> Vec<Group> {
             ("C15", false) => Recipe::C15 { n_job: 30, n_bytes: 0 },
             _ => continue,
         };
-        out.push(Group { property: property.into(), index: out.len(), seed: gseed, reference, recipe });
+        out.push(Group { property: property.into(), index: out.len(),
+                    position: 0, seed: gseed, reference, recipe });
     }
     out
 }
@@ -333,7 +359,7 @@ pub fn variations(group: &Group, reference: &ExecRecord) -> Vec<Plan> {
             if *n_victims == usize::MAX {
                 for job in &reference.jobs {
                     for kind in kinds {
-                        for w in [2usize, 0] {
+                        for w in [*rng.pick(&[2usize, 3, 0])] {
                             let mut p = group.reference.clone();
                             p.workers = w;
                             p.strategy = Strategy {
